@@ -4,18 +4,19 @@
 use std::cell::UnsafeCell;
 use std::sync::Arc;
 
-/// Fixed-capacity FIFO (capacity 8): no index arithmetic on heap-resident capacities.
-struct Queue<T> { slots: [Option<T>; 8], head: usize, tail: usize }
+/// Fixed-capacity FIFO (capacity 4) with one field per slot and explicit if-chains: no array
+/// indexing, so a model checker never sees a symbolic index into an array of (large) messages.
+struct Queue<T> { s0: Option<T>, s1: Option<T>, s2: Option<T>, s3: Option<T>, head: usize, tail: usize }
 impl<T> Queue<T> {
-    fn new() -> Self { Self { slots: [None, None, None, None, None, None, None, None], head: 0, tail: 0 } }
+    fn new() -> Self { Self { s0: None, s1: None, s2: None, s3: None, head: 0, tail: 0 } }
     fn push_back(&mut self, v: T) {
-        assert!(self.tail < 8, "verif-flume: stand-in queue capacity exceeded");
-        self.slots[self.tail] = Some(v);
+        assert!(self.tail < 4, "verif-flume: stand-in queue capacity exceeded");
+        if self.tail == 0 { self.s0 = Some(v) } else if self.tail == 1 { self.s1 = Some(v) } else if self.tail == 2 { self.s2 = Some(v) } else { self.s3 = Some(v) }
         self.tail += 1;
     }
     fn pop_front(&mut self) -> Option<T> {
         if self.head == self.tail { return None; }
-        let v = self.slots[self.head].take();
+        let v = if self.head == 0 { self.s0.take() } else if self.head == 1 { self.s1.take() } else if self.head == 2 { self.s2.take() } else { self.s3.take() };
         self.head += 1;
         v
     }
